@@ -58,6 +58,14 @@ fn mk_attrs(ul: usize, flags: u64) -> FaceAttrs {
             5 => FaceAttrs::UNDERLINE_DASHED,
             _ => FaceAttrs::EMPTY,
         };
+    // underline bit patterns 6 / 7 exist only through the raw `|=` (4|2, 5|2)
+    if ul == 6 {
+        a = FaceAttrs::UNDERLINE_DOTTED;
+        a |= FaceAttrs::UNDERLINE_DOUBLE;
+    } else if ul == 7 {
+        a = FaceAttrs::UNDERLINE_DASHED;
+        a |= FaceAttrs::UNDERLINE_DOUBLE;
+    }
     for (i, f) in [FaceAttrs::BOLD, FaceAttrs::ITALIC, FaceAttrs::BLINK, FaceAttrs::REVERSE, FaceAttrs::STRIKE]
         .iter()
         .enumerate()
@@ -329,11 +337,20 @@ pub fn run(input: &Value) -> Case {
             let cuts2 = cuts.clone();
             let cells = catch(move || {
                 let mut rec = Recorder { face: f0, wraps: false, cells: vec![] };
+                let mut short = false;
                 {
                     let mut w = rec.by_ref().tty_writer();
                     for c in chunks(&b2, &cuts2) {
-                        let _ = w.write(c);
+                        // Write::write must report the whole chunk as consumed (a short count would make
+                        // write_all re-send bytes): a wrong count is made visible as an extra cell
+                        match w.write(c) {
+                            Ok(n) if n == c.len() => {}
+                            _ => short = true,
+                        }
                     }
+                }
+                if short {
+                    rec.cells.push((0x11_0002, Face::default()));
                 }
                 rec.cells
             })
@@ -451,7 +468,7 @@ fn g_optcolor(rng: &mut Rng, p: u64) -> Value {
     }
 }
 fn g_face(rng: &mut Rng) -> Value {
-    json!({"fg": g_optcolor(rng, 50), "bg": g_optcolor(rng, 50), "ul": rng.below(6), "flags": rng.below(32)})
+    json!({"fg": g_optcolor(rng, 50), "bg": g_optcolor(rng, 50), "ul": if rng.chance(1, 12) { 6 + rng.below(2) } else { rng.below(6) }, "flags": rng.below(32)})
 }
 fn g_optbool(rng: &mut Rng, p: u64) -> Value {
     if rng.chance(p, 100) {
